@@ -11988,7 +11988,11 @@ CK_RV SoftHSM::CreateObject(CK_SESSION_HANDLE hSession, CK_ATTRIBUTE_PTR pTempla
 	rv = p11object->saveTemplate(token, isPrivate != CK_FALSE, attribs,attribsCount,op);
 	delete p11object;
 	if (rv != CKR_OK)
+	{
+		// Do not leave the partially built object behind
+		object->destroyObject();
 		return rv;
+	}
 
 	if (op == OBJECT_OP_CREATE)
 	{
@@ -11997,6 +12001,7 @@ CK_RV SoftHSM::CreateObject(CK_SESSION_HANDLE hSession, CK_ATTRIBUTE_PTR pTempla
 		    !object->setAttribute(CKA_LOCAL, false) ||
 		    !object->commitTransaction()))
 		{
+			object->destroyObject();
 			return CKR_GENERAL_ERROR;
 		}
 
@@ -12007,6 +12012,7 @@ CK_RV SoftHSM::CreateObject(CK_SESSION_HANDLE hSession, CK_ATTRIBUTE_PTR pTempla
 		    !object->setAttribute(CKA_NEVER_EXTRACTABLE, false) ||
 		    !object->commitTransaction()))
 		{
+			object->destroyObject();
 			return CKR_GENERAL_ERROR;
 		}
 	}
